@@ -446,8 +446,16 @@ class Rig3(c11.Rig):
         self.S.time = TimeShim
         self.drivers.time = TimeShim      # _applyStsPolicy
 
-    def session(self):
+    def session(self, tls=False):
+        """a fresh Irc + SocketDriver on network 'test'; tls: the network is configured with TLS and certificate
+        verification (the TLS layer itself is stubbed: ssl_wrap_socket returns the fake socket), which is when the
+        bot stores the STS policies a server advertises (ircdb.networks) and applies them at the next connection"""
         b = self.b
+        self.conf.supybot.networks.test.ssl.setValue(bool(tls))
+        self.conf.supybot.protocols.ssl.verifyCertificates.setValue(bool(tls))
+        from supybot import ircdb
+        net = ircdb.networks.getNetwork('test')
+        net.stsPolicies.clear(); net.lastDisconnectTimes.clear()      # (what an earlier session stored is not this one's input)
         for i in list(b.world.ircs):
             if i is not b.irc: b.world.ircs.remove(i)
         S = self.S; drivers = self.drivers
@@ -509,6 +517,10 @@ ISUPPORT = ['CHANTYPES', 'CHANTYPES=', 'CHANTYPES=#', 'CHANNELLEN', 'CHANNELLEN=
             '-CHANTYPES', '-PREFIX', 'EXCEPTS', 'INVEX=', 'ELIST=', 'TOPICLEN=x', 'KICKLEN', 'AWAYLEN=', 'WHOX', 'MONITOR', 'BOT', 'BOT=', 'UTF8ONLY', '=', '=x', 'A=B=C']
 USER_CMDS = ['help "\\ud800"', 'echo "\\ud800"', '"\\ud800"', 'help', 'list', 'echo hi', 'ping', 'echo "\\x00\\r\\nQUIT"', 'echo ' + 'é' * 300, 'version', 'whoami',
              'echo [echo [echo x', 'echo ]', 'help "\\udfff\\ud800"', 'config help "\\ud83d"']
+STS_LINES = [b':srv CAP * LS :multi-prefix sts=port=6697 server-time', b':srv CAP * LS :sts=port=6697,duration=forever', b':srv CAP * NEW :sts=port=6697,duration=',
+             b':srv CAP * LS :sts=port=6697,duration=100 sasl', b':srv CAP * LS * :sts=duration=100,port=6697', b':srv CAP * NEW :sts=port=6697,duration=-1',
+             b':srv CAP * LS :sts=port=6697,duration=1e3', b':srv CAP * LS :sts=port=6697,duration', b':srv CAP * LS :sts=port=6697,duration=0',
+             b':srv CAP * LS :sts=port=,duration=100', b':srv CAP * LS :sts=duration=100', b':srv CAP * LS :sts=port=6697,duration=100,preload']
 TARGETED = ['ERROR :Closing link: (flood)', 'ERROR :Trying to reconnect too fast, wait', 'CAP * LS :sts=port=6697,duration=100 sasl', ':srv CAP * LS :sts',
             'CAP * LS * :multi-prefix', 'CAP * ACK :labeled-response batch echo-message', 'CAP * NAK :sasl', 'AUTHENTICATE +', ':srv 904 test :SASL failed',
             ':srv 433 * test :Nickname in use', ':srv 437 * test :unavailable', ':test!u@h NICK', ':test!u@h NICK :other', ':srv 001', ':srv 005 test', ':srv 353 test', ':srv 352',
@@ -620,8 +632,8 @@ def guarded_run(rig, st, seconds=3):
     if st.crash == 'Alarm':
         rig.hangs = getattr(rig, 'hangs', 0) + 1
 
-def run_l3(rig, r, lines, fault, probe_key, eof=False):
-    irc, d, st = rig.session()
+def run_l3(rig, r, lines, fault, probe_key, eof=False, tls=False):
+    irc, d, st = rig.session(tls)
     if fault:
         what, mode = fault
         setattr(rig.ctl, what, 'drop' if mode == 'drop' else (EXC if mode[0] == 'x' else BASE)[mode[1:]])
@@ -681,7 +693,12 @@ def l3_cases(rig, r, n):
         fault = r.choice(FAULT_MODES)
         key = ('k%d' % r.randrange(10 ** 6)).encode()
         eof = r.random() < 0.2
-        obs, ops = run_l3(rig, r, lines, fault, key, eof)
+        tls = r.random() < 0.15
+        if tls and r.random() < 0.6:
+            # an STS policy advertised on the verified connection, then (often) the link goes away
+            lines.insert(r.randrange(len(lines) + 1), r.choice(STS_LINES))
+            if r.random() < 0.7: lines.append(r.choice([b'ERROR :Closing link: (bye)', b'ERROR :Trying to reconnect too fast, wait']))
+        obs, ops = run_l3(rig, r, lines, fault, key, eof, tls)
         ok = True; msg = ''
         if obs['crash'] in ('Hang', 'Alarm'):
             ok = False; msg = 'the driver loop does not return (%s) after %r' % ('recv() on a blocking socket with nothing to read' if obs['crash'] == 'Hang' else 'drivers.run() — feedMsg of the last line fed — used 3 s of CPU without returning', lines)
@@ -711,7 +728,9 @@ def l3_cases(rig, r, n):
             if l[:1] == b'@': t.add('tagged')
             if l.strip() in (b':', b'@tag', b'', b': :', b':a', b'@ x'): t.add('malformed')
         if eof: t.add('eof-then-reconnect')
-        c = Case({'l3': True, 'lines': [l.hex() for l in lines], 'fault': fault, 'eof': eof, 'chunks': [o[1][1].hex() for o in ops if o[0] == 'sr']},
+        if tls: t.add('tls-verified')
+        if tls and any(b'sts=' in l for l in lines): t.add('tls-verified-sts-policy')
+        c = Case({'l3': True, 'lines': [l.hex() for l in lines], 'fault': fault, 'eof': eof, 'tls': tls, 'chunks': [o[1][1].hex() for o in ops if o[0] == 'sr']},
                  impl=impl, oracle_ok=ok, oracle_msg=msg, kind='L3-hostile', tags=tuple(sorted(t)))
         c.input['comparable'] = comparable
         cases.append(c)
@@ -764,11 +783,12 @@ def corpus_cases(rig):
     for j in load_corpus():
         lines = [bytes.fromhex(x) for x in j['lines']]
         fault = tuple(j['fault']) if j.get('fault') else None
-        obs, ops = run_l3(rig, r, lines, fault, b'corpus', bool(j.get('eof')))
+        obs, ops = run_l3(rig, r, lines, fault, b'corpus', bool(j.get('eof')), bool(j.get('tls')))
         ok = obs['registered'] and not obs['crash'] and obs['answered'] is True
-        c = Case({'l3': True, 'corpus': j.get('note', ''), 'lines': j['lines'], 'fault': j.get('fault')},
+        c = Case({'l3': True, 'corpus': j.get('note', ''), 'lines': j['lines'], 'fault': j.get('fault'), 'eof': bool(j.get('eof')), 'tls': bool(j.get('tls'))},
                  impl='registered=%d answered=%s' % (obs['registered'], obs['answered']), oracle_ok=ok,
-                 oracle_msg='' if ok else 'corpus case %r: registered=%s crash=%s answered=%s' % (j.get('note'), obs['registered'], obs['crash'], obs['answered']),
+                 oracle_msg='' if ok else 'corpus case %r: registered=%s crash=%s answered=%s (None: never reconnected) connected=%s reconnects=%d' % (
+                     j.get('note'), obs['registered'], obs['crash'], obs['answered'], obs['connected'], obs['reconnects']),
                  kind='corpus', tags=('corpus',))
         c.input['comparable'] = False
         cases.append(c); ml.append('d\treset'); spans.append((len(ml), len(ops))); ml += ['d\t' + c11.op_line(o) for o in ops]
@@ -818,7 +838,7 @@ def replay(ctx, path):
     if inp.get('l3'):
         lines = [bytes.fromhex(x) for x in inp['lines']]
         fault = tuple(inp['fault']) if inp.get('fault') else None
-        obs, _ = run_l3(rig, rng.make('replay'), lines, fault, b'replay', bool(inp.get('eof')))
+        obs, _ = run_l3(rig, rng.make('replay'), lines, fault, b'replay', bool(inp.get('eof')), bool(inp.get('tls')))
         for l in lines: print('   line', l[:120])
         print('fault:', fault, '\nimplementation now:', {k: v for k, v in obs.items() if k != 'pongs'})
         return 0 if (obs['registered'] and obs['answered']) else 1
